@@ -7,7 +7,7 @@ import z3
 from vp import loader, symnp as S, elem as E
 from vp.elem import CTX
 from vp.run import new_result
-from harness.common import Prover, any_differs, model_bytes, explore
+from harness.common import Prover, any_differs, model_bytes, explore, guarded
 
 ID = 'C15'
 LEVEL = 'model_checking'
@@ -104,14 +104,18 @@ def job_groups(job, res):
 
     def pc(t):
         return f(t)
-    for shape in ((4,), (2, 3), (2, 3, 4)):
+    for shape in ((4,), (2, 3), (2, 3, 4), (2, 2, 4), (2, 2, 2, 2)):
         for axis in list(range(len(shape))) + [-1]:
             for k in range(1, job['kmax'] + 1):
                 ax = axis % len(shape)
                 if shape[ax] < k:
                     continue
                 x = S.sym_bv('d', shape, 'uint8')
-                out = M.HammingWeight(nb_words=k)(x, axis=axis)
+                desc = f'HammingWeight(nb_words={k})(data{shape}, axis={axis}) == sum of popcounts over groups of {k} consecutive words; other dimensions kept'
+                wit = lambda m, shape=shape, axis=axis, k=k, x=x: dict(kind='groups', shape=list(shape), axis=axis, k=k, value=model_bytes(m, x), key=dict(kind='groups', k=k))  # noqa: E731
+                done, out = guarded(pr, desc, wit, lambda: M.HammingWeight(nb_words=k)(x, axis=axis))
+                if not done:
+                    continue
                 fs = list(shape)
                 fs[ax] = shape[ax] // k
                 exp = rnp.empty(tuple(fs), dtype=object)
@@ -123,10 +127,7 @@ def job_groups(job, res):
                         acc = acc + pc(x.c[tuple(src)])
                     exp[idx] = acc
                 ok = tuple(out.shape) == tuple(fs) and out.dtype == rnp.uint32
-                pr.prove(z3.Not(any_differs(S.terms(out), list(exp.reshape(-1)))) if ok else z3.BoolVal(False),
-                         f'HammingWeight(nb_words={k})(data{shape}, axis={axis}) == sum of popcounts over groups of {k} consecutive words; other dimensions kept',
-                         lambda m, shape=shape, axis=axis, k=k: dict(kind='groups', shape=list(shape), axis=axis, k=k, value=model_bytes(m, x), key=dict(kind='groups', k=k)),
-                         sample=(k == 2 and axis == 1))
+                pr.prove(z3.Not(any_differs(S.terms(out), list(exp.reshape(-1)))) if ok else z3.BoolVal(False), desc, wit, sample=(k == 2 and axis == 1))
     S.unregister_tables()
 
 
@@ -221,7 +222,10 @@ def replay(w):
         return dict(reproduced=[int(g) for g in got] != exp, detail=f'HammingWeight({w["dt"]})({[hex(int(a)) for a in v]}) = {got.tolist()} expected {exp}')
     if w['kind'] == 'groups':
         v = np.array(w['value'], dtype='uint8')
-        got = models.HammingWeight(nb_words=w['k'])(v, axis=w['axis'])
+        try:
+            got = models.HammingWeight(nb_words=w['k'])(v, axis=w['axis'])
+        except Exception as e_:
+            return dict(reproduced=True, detail=f'HammingWeight(nb_words={w["k"]})(data of shape {v.shape}, axis={w["axis"]}) raised {type(e_).__name__}: {e_}')
         ax = w['axis'] % v.ndim
         pc = np.vectorize(lambda a: bin(int(a)).count('1'))(v)
         n = v.shape[ax] // w['k']
